@@ -170,6 +170,13 @@ class State:
         for f in self.closure():
             if f[0] == "type" and f[1] == t:
                 ts = f[2] if ts is None else ts & f[2]
+        if ts is None and isinstance(t, tuple) and len(t) == 3 and t[0] == "elem":
+            # the elements of a str are one-character strs, those of bytes are ints
+            bt = self.types(t[1])
+            if bt is not None and bt <= {"str"}:
+                ts = frozenset(["str"])
+            elif bt is not None and bt <= {"bytes"}:
+                ts = frozenset(["int"])
         return ts
 
     def contradicts(self, c):
@@ -245,6 +252,7 @@ RET_TYPES = {
     "builtin:sorted": "list",
     "builtin:list": "list",
     "builtin:set": "set",
+    "builtin:frozenset": "frozenset",
     "builtin:dict": "dict",
     "builtin:tuple": "tuple",
     "builtin:bool": "bool",
@@ -352,6 +360,7 @@ class Walker:
         self.clsbind = clsbind
         self.inline = inline
         self.comp_facts = {}
+        self.comp_alts = {}
         self.npaths = 0
 
     # ------------------------------------------------------------------ helpers
@@ -1034,6 +1043,10 @@ class Walker:
             keep = frozenset(f for f in normal if _mentions(f, el) or f[0] in ("forall",))
             if keep:
                 after.add(("forall", base, loop_id, keep))
+        alts = frozenset(frozenset(f for f in bp[1] if _mentions(f, el)) for bp in body_paths if bp[0] in ("fall", "continue"))
+        if len(alts) > 1 and all(alts) and not any(bp[0] == "break" for bp in body_paths):
+            # every element completed the body along one of these alternatives
+            after.add(("forallalt", base, loop_id, alts))
         after.ev("loop", self.site(n), base, el, tuple(body_paths))
         if any(k2 == "break" for _s, k2, _p in body_outs) or not orelse:
             outs.append((after, "fall", None))
@@ -1160,8 +1173,30 @@ class Walker:
             cf = self.comp_facts.get((comp[2], comp[4]))
             if cf:
                 a.add(("forall", self._comp_base(comp), comp[4], cf))
+            alts = self.comp_alts.get((comp[2], comp[4]))
+            if alts and len(alts[0]) > 1 and all(alts[0]):
+                a.add(("forallalt", self._comp_base(comp), comp[4], alts[0]))
             b = s.copy()
             b.add(("falsy", t), ("nonempty", comp[2]))
+            if alts and alts[1]:
+                # not all(...): some element makes the element expression false
+                b.add(("exists", self._comp_base(comp), comp[4], alts[1]))
+            return [(a, "true", None), (b, "false", None)]
+        if is_call(t, "builtin:any") and t[2] and t[2][0][0] == "comp":
+            comp = t[2][0]
+            a = s.copy()
+            a.add(("truthy", t), ("nonempty", comp[2]))
+            b = s.copy()
+            b.add(("falsy", t))
+            alts = self.comp_alts.get((comp[2], comp[4]))
+            if alts:
+                if alts[0]:
+                    a.add(("exists", self._comp_base(comp), comp[4], alts[0]))
+                if alts[1]:
+                    common = merge_facts(list(alts[1]))
+                    if common:
+                        # not any(...): the element expression is false for every element
+                        b.add(("forall", self._comp_base(comp), comp[4], frozenset(common)))
             return [(a, "true", None), (b, "false", None)]
         a = s.copy()
         a.add(("truthy", t))
@@ -1442,7 +1477,7 @@ class Walker:
                     res = "str"
                 elif tl <= {"bytes"} and tr <= {"bytes"} and op == "+":
                     res = "bytes"
-                elif tl <= NUM and tr <= NUM and op in ("+", "-", "*"):
+                elif tl <= NUM and tr <= NUM and op in ("+", "-", "*", "%", "//", "/"):
                     res = "num"
                 elif tl <= {"str"} and op == "%":
                     res = "str"
@@ -1462,13 +1497,13 @@ class Walker:
                                 # the other operand must be outside this family for the error to occur
                                 conds.append(("nottype", other, fam | (frozenset(["bytearray", "memoryview"]) if fam == frozenset(["bytes"]) else frozenset())))
                 self.rz(outs, s, e, "TypeError", "operator %s on operands of unknown/mixed type" % op, conds)
-            if op in ("/", "//", "%") and res != "str":
-                self.rz(outs, s, e, "ZeroDivisionError", "division", [])
+            if op in ("/", "//", "%") and res != "str" and not (is_const(r) and isinstance(r[2], (int, float)) and r[2] != 0):
+                self.rz(outs, s, e, "ZeroDivisionError", "division", [("eq", r, C(0))])
             s = s.copy()
             if res in ("str", "bytes", "list"):
                 s.add(("type", t, frozenset([res])))
             elif res == "num":
-                s.add(("type", t, (tl | tr) - {"bool"} or frozenset(["int"])))
+                s.add(("type", t, frozenset(["int", "float"]) if op == "/" else ((tl | tr) - {"bool"} or frozenset(["int"]))))
             elif res == "dt":
                 s.add(("type", t, frozenset(["obj:datetime.datetime"]) if any("datetime.datetime" in x for x in tl | tr) else tl | tr))
             outs.append((s, "val", t))
@@ -1674,6 +1709,7 @@ class Walker:
                 starts = nxt
             elt_nodes = [e.key, e.value] if kind == "dict" else [e.elt]
             truthy_facts = None
+            falsy_alts, truthy_alts = [], []
             elt_term = None
             body_paths = []
             for s0, _k0, _p0 in starts:
@@ -1684,15 +1720,22 @@ class Walker:
                     elt_term = ts[0] if kind != "dict" else ("lit", "tuple", tuple(ts), None)
                     body_paths.append(("fall", frozenset(f for f in s1.facts - s.facts if is_param_rooted(f)), s1.events, elt_term, frozenset(s1.facts)))
                     tv_ = s1.truth_value(ts[0])
+                    delta = frozenset(f for f in s1.facts - s.facts if is_param_rooted(f))
+                    if tv_ is not True:
+                        # an element for which the element expression is false (for not all(...) / not any(...))
+                        fd = delta | {("falsy", ts[0])} if tv_ is None else delta
+                        falsy_alts.append(frozenset(f for f in fd if _mentions(f, el)))
                     if tv_ is False:
                         continue
-                    delta = frozenset(f for f in s1.facts - s.facts if is_param_rooted(f))
                     if tv_ is None:
                         delta = delta | {("truthy", ts[0])}
+                    truthy_alts.append(frozenset(f for f in delta if _mentions(f, el)))
                     truthy_facts = delta if truthy_facts is None else merge_facts([truthy_facts, delta])
             if truthy_facts and not g.ifs:
                 keep = frozenset(f for f in truthy_facts if _mentions(f, el))
                 self.comp_facts[(it, loop_id)] = keep
+            if not g.ifs and kind != "dict":
+                self.comp_alts[(it, loop_id)] = (frozenset(truthy_alts), frozenset(falsy_alts))
             s2 = s.copy()
             s2.ev("loop", self.site(e), base, el, tuple(body_paths))
             if kind != "gen" and not g.ifs and body_paths:
